@@ -109,9 +109,9 @@ func protoChoices(prop string) []string {
 	}
 	switch prop {
 	case "C09":
-		return []string{"http1"}
+		return []string{"http1", "boltpp", "bolt"}
 	}
-	return []string{"bolt", "http1"}
+	return []string{"bolt", "http1", "boltpp"}
 }
 
 func isX(proto string) bool { return proto != "http1" && proto != "http2" }
@@ -329,6 +329,13 @@ func (w *Proxy) Setup() error {
 		w.setupXClients()
 	}
 	s.Quiesce = append(s.Quiesce, w.quiescent)
+	// workload features, for evidence and for the conditions of known findings
+	s.Faults["w:proto:"+p.Proto]++
+	for _, r := range w.H.Reqs {
+		if r.Oneway {
+			s.Faults["w:oneway"]++
+		}
+	}
 	// heartbeat: make sure the scheduler loop (and with it quiescent()) runs at
 	// least every 5 s of simulated time even if the system under test is silent
 	var hb func()
@@ -427,7 +434,7 @@ func (w *Proxy) probeSize() int {
 		return 0
 	}
 	k := p.MaxReqs
-	if p.Proto == "http1" && p.MaxConns > 0 && (k == 0 || p.MaxConns < k) {
+	if (p.Proto == "http1" || p.Proto == ppName) && p.MaxConns > 0 && (k == 0 || p.MaxConns < k) {
 		k = p.MaxConns
 	}
 	return k
@@ -503,8 +510,8 @@ func (w *Proxy) Done() bool { return w.finished }
 
 // Nontrivial: at least two requests overlapped in time or a fault fired.
 func (w *Proxy) Nontrivial() bool {
-	for _, n := range w.S.Faults {
-		if n > 0 {
+	for k, n := range w.S.Faults {
+		if n > 0 && !strings.HasPrefix(k, "w:") {
 			return true
 		}
 	}
